@@ -428,8 +428,12 @@ pub fn step_poll(c: &StepCfg) {
     }
 
     let mut cx = Context::from_waker(&w);
+    let a0 = gh::allocs();
+    gh::alloc_track(true);
     let r = Pin::new(&mut f).poll_next(&mut cx);
+    gh::alloc_track(false);
     v::set_sched(None);
+    vassert!(gh::allocs() == a0, "C18:FuturesUnorderedBounded allocated during poll_next");
 
     let woken_t = gh.task_wakes[t] > wakes_before[t];
     let other = 1 - t;
@@ -561,6 +565,7 @@ pub fn step_poll(c: &StepCfg) {
             }
             vcover!(true, "cover:pending");
             vcover!(woken_t, "cover:pending_woken");
+            vcover!(polls_in_call == BUDGET, "cover:budget_exhausted");
         }
     }
     let _ = pre_needs;
@@ -591,7 +596,11 @@ pub fn step_push(c: &StepCfg) {
     let pre_wakes = gh.task_wakes;
     let pre_needs = gh.needs_poll[0];
 
+    let a0 = gh::allocs();
+    gh::alloc_track(true);
     let r = f.try_push(Fut::new(id as u8));
+    gh::alloc_track(false);
+    vassert!(gh::allocs() == a0, "C18:FuturesUnorderedBounded allocated during a push");
 
     let s = snap(&mut f, c.cap, t);
     let occ = snap_occ(&s);
@@ -686,6 +695,8 @@ pub fn step_wake(c: &StepCfg) {
     // 0: wake_by_ref, 1: wake (by value, consumes the handle), 2: clone + drop the clone,
     // 3: first half of a racing wake, 4: second half
     let op = nd::below(if c.inflight_ok { 5 } else { 3 });
+    let a0 = gh::allocs();
+    gh::alloc_track(true);
     match op {
         0 => gh::env_fire(0),
         1 => {
@@ -705,6 +716,8 @@ pub fn step_wake(c: &StepCfg) {
         4 => gh::env_finish(0),
         _ => {}
     }
+    gh::alloc_track(false);
+    vassert!(gh::allocs() == a0, "C18:waking, cloning or dropping a child waker allocated");
 
     let s = snap(&mut f, c.cap, t);
     let occ = snap_occ(&s);
@@ -812,4 +825,56 @@ pub fn step_drop(c: &StepCfg) {
         i += 1;
     }
     vcover!(p.filled == c.cap, "cover:drop_full");
+}
+
+// ===================================================================== budget
+
+/// a child that wakes itself on every poll until its `stop`-th poll
+pub struct Spin {
+    pub stop: usize,
+}
+
+impl core::future::Future for Spin {
+    type Output = u8;
+    fn poll(self: Pin<&mut Self>, cx: &mut Context<'_>) -> Poll<u8> {
+        let gh = g();
+        gh.total_child_polls += 1;
+        if gh.total_child_polls < self.stop {
+            gh.child_wakes += 1;
+            cx.waker().wake_by_ref();
+        }
+        Poll::Pending
+    }
+}
+
+/// The per-poll budget: one held child that keeps waking itself. The call
+/// must return after at most BUDGET child polls, and when it stops early it
+/// must have woken its task (C13), which is then the only reason for the wake (C14).
+pub fn budget() {
+    gh::reset();
+    let gh = g();
+    let stop = nd::below(70) as usize;
+    let t = nd::below(2) as usize;
+    let w = gh::task_waker(t);
+    let q = [QEntry { slot: 0, inflight: false }; MAXS];
+    let mut f: FuturesUnorderedBounded<Spin> = v::fub_from_parts(1, |_| Ok(Spin { stop }), 1, 1, &q, &w, false);
+    gh.task_wakes = [0; 2];
+    let mut cx = Context::from_waker(&w);
+    let r = Pin::new(&mut f).poll_next(&mut cx);
+    vassert!(matches!(r, Poll::Pending), "C02:a pending child produced an item");
+    vassert!(gh.total_child_polls <= BUDGET, "C13:more child polls in one call than the budget");
+    let s = snap(&mut f, 1, t);
+    if stop > BUDGET {
+        // stopped early, the child is still queued: the task must have been told
+        vassert!(gh.total_child_polls == BUDGET, "C13:poll gave up before its budget was used");
+        vassert!(s.qlen == 1, "C01:self-woken child lost from the ready queue");
+        vassert!(gh.task_wakes[t] >= 1, "C01:budget exhausted with a queued child, task not woken");
+        vcover!(true, "cover:budget_exhausted");
+    } else {
+        vassert!(gh.total_child_polls == if stop == 0 { 1 } else { stop }, "C12:child polled more often than it was notified");
+        vassert!(s.qlen == 0, "C14:ready queue not drained");
+        vassert!(gh.task_wakes[t] == if stop > 1 { 1 } else { 0 }, "C14:task woken without reason (or not woken by the self-wakes)");
+        vcover!(stop == BUDGET, "cover:exactly_budget");
+    }
+    core::mem::forget(f);
 }
